@@ -6,10 +6,16 @@
                          `(e tag)`  = the call's value is the error `tag`, `(o unmodelled-builtin)`.
     `math.powint a b`    POWER on two ints with non-negative exponent: `(i n)`, `(e tag)` or `none`
     `math.float value`   `float()` of a number value: `(bits n)`, `(e error)` = OverflowError
+    `evalf <formula> <env>`  `eval` with the real-valued builtins present: every registered name that has no exact model
+                         but a generic one (Model/Fn/Math.lean, Model/Fn/Fin.lean) is supplied to the evaluator as a
+                         host function computed by the Float instance (libm) - the evaluator model itself is the proved one,
+                         unchanged; a finite double travels on as the exact rational it denotes, a non-finite one as
+                         `(o float-nonfinite)`; POWER on two ints with a non-negative exponent is the exact int.
 -/
 import HotXL.Model.Fn.Math
 import HotXL.Model.Fn.Fin
 import HotXL.Driver.Util
+import HotXL.Driver.Eval
 namespace HotXL.Driver.Math
 open HotXL HotXL.Fn HotXL.Driver
 
@@ -21,8 +27,56 @@ def showF (r : Except Err Float) : String :=
   | .ok x => s!"(bits {x.toBits})"
   | .error e => s!"(e {e.tag})"
 
+/-- the exact rational a finite double denotes -/
+def ratOfFloat (x : Float) : Option Rat :=
+  let bits : Nat := x.toBits.toNat
+  let s : Nat := bits / 2 ^ 63
+  let e : Nat := (bits / 2 ^ 52) % 2048
+  let m : Nat := bits % 2 ^ 52
+  if e = 2047 then none
+  else
+    let mant : Nat := if e = 0 then m else 2 ^ 52 + m
+    let ex : Int := if e = 0 then -1074 else (e : Int) - 1075
+    let q : Rat := if ex ≥ 0 then (((mant * 2 ^ ex.toNat : Nat) : Int) : Rat) else mkRat (mant : Int) (2 ^ (-ex).toNat)
+    some (if s = 1 then -q else q)
+
+/-- a registered real-valued builtin without an exact model, as a host function over the Float instance -/
+def floatHost (name : String) : Option Eval.HostFn :=
+  if (Builtins.model? name).isSome then none
+  else
+    match floatTable.find? (fun p => p.1 = name) with
+    | none => none
+    | some p => some (fun args =>
+        let viaFloat : Except Eval.Exn Value :=
+          match p.2 args with
+          | .ok x =>
+            match ratOfFloat x with
+            | some q => .ok (.num (.flt q))
+            | none => .ok (.other "float-nonfinite")
+          | .error e => .error (.xl e)
+        if name = "POWER" then
+          match args with
+          | [a, b] =>
+            match Fn.Math.powerIntExact a b with
+            | some (.ok i) => .ok (.num (.int i))
+            | some (.error e) => .error (.xl e)
+            | none => viaFloat
+          | _ => viaFloat
+        else viaFloat)
+
+def withFloatBuiltins (env : Eval.Env) : Eval.Env :=
+  { env with custom := fun n =>
+      match env.custom n with
+      | some f => some f
+      | none => floatHost (String.ofList n) }
+
 def handle (op : String) (args : List Sexp) : Option String :=
   match op, args with
+  | "evalf", [a, e] => do
+      let s ← strArg a
+      let env ← Driver.Eval.envOf e
+      let (r, log) := Eval.parseTop (withFloatBuiltins env) s
+      pure ("(" ++ Driver.Eval.showRecord r ++ " (" ++ " ".intercalate (log.map Driver.Eval.showEvent) ++ "))")
   | "math", (n :: vs) => do
       let name ← strArg n
       let args ← vs.mapM Value.ofSexp
